@@ -8,6 +8,7 @@ import (
 	"io"
 	"math"
 	"runtime"
+	"sort"
 	"sync"
 	"sync/atomic"
 	"testing"
@@ -102,17 +103,20 @@ func (d *c15Sess) do(op vk.CacheOp) (vk.CacheOut, bool) {
 		if !d.s.Put(&mocrelay.ClientReqMsg{SubscriptionID: sub, ReqFilters: op.Filters}) {
 			return vk.CacheOut{}, false
 		}
-		var ids []string
+		var evs []*mocrelay.Event
 		for {
 			m, ok := d.s.Get()
 			if !ok {
 				return vk.CacheOut{}, false
 			}
 			if _, is := m.(*mocrelay.ServerEOSEMsg); is {
-				return vk.CacheOut{IDs: ids}, true
+				// which events answer a REQ is the store's query result; the order in which a
+				// handler sends them is not stated anywhere (timestamps are distinct here)
+				sort.SliceStable(evs, func(a, b int) bool { return evs[a].CreatedAt > evs[b].CreatedAt })
+				return vk.CacheOut{IDs: vk.IDsOf(evs)}, true
 			}
 			if e, is := m.(*mocrelay.ServerEventMsg); is {
-				ids = append(ids, e.Event.ID)
+				evs = append(evs, e.Event)
 			}
 		}
 	}
